@@ -372,6 +372,9 @@ def run_check(mod, tier, seed, only=None):
         if res['status'] == 'infra':
             infra = res['msg']
             break
+        if res['status'] == 'dropped':
+            total.stats['load-induced-timeouts-dropped'] += 1
+            continue
         key = (res['status'], res.get('known_id'), res.get('path'))
         if res['status'] == 'known':
             if res['known_id'] not in reported:
@@ -409,6 +412,9 @@ def process_finding(mod, ctx, f, seed):
     # determinism gate: three evaluations, identical log hashes and verdicts
     r1 = recheck(mod, ctx, case, f.cls)
     r2 = recheck(mod, ctx, case, f.cls)
+    if f.cls == 'hang' and not r1[0] and not r2[0]:
+        # the run finished when given more time: the machine was busy
+        return {'status': 'dropped', 'msg': 'time-out did not reproduce with a 120 s cap'}
     if not r1[0] or not r2[0] or r1[2] != r2[2]:
         return {'status': 'infra', 'msg': 'violation %s (%s) did not reproduce deterministically: %s / %s' % (f.cls, f.where, r1, r2)}
     # shrink
